@@ -36,7 +36,10 @@ Fixpoint insert_keyed (x : string * sexp) (l : list (string * sexp)) : list (str
 Definition sort_set (l : list sexp) : list sexp :=
   map snd (fold_right insert_keyed [] (map (fun e => (show_sexp e, e)) l)).
 
-Definition commutative_head (h : string) : bool := String.eqb h "and" || String.eqb h "or".
+(* siblings whose order carries no meaning: conjuncts / disjuncts / effect members, the sections of the domain and
+   the declarations inside (:predicates ...), (:functions ...), (:requirements ...) *)
+Definition commutative_head (h : string) : bool :=
+  str_in h ["and"; "or"; "define"; ":predicates"; ":functions"; ":requirements"].
 
 Fixpoint canon (e : sexp) : sexp :=
   match e with
@@ -44,6 +47,7 @@ Fixpoint canon (e : sexp) : sexp :=
   | SList l =>
       let l' := (fix go (l : list sexp) : list sexp := match l with [] => [] | x :: r => canon x :: go r end) l in
       match l' with
+      | [Atom "="; Atom a; Atom b] => if String.leb a b then SList l' else SList [Atom "="; Atom b; Atom a]
       | Atom h :: r => if commutative_head h then SList (Atom h :: sort_set r) else SList l'
       | _ => SList l'
       end
